@@ -196,12 +196,12 @@ theorem splitAnchor_length (pat : List Nat) : (splitAnchor pat).2.length ≤ pat
   · rw [hsa, hpat]; simp
   · rw [hsa]; exact Nat.le_refl _
 
-theorem frag_pipeline (pat : List Nat) (hne : 0 < pat.length) (hfrag : inFragment pat = true) :
+theorem frag_pipeline (pat : List Nat) (hne : 0 < pat.length) (hfrag : inFragment0 pat = true) :
     ∃ (sq : SeqPat) (insts : Array Inst), parseTop pat.toArray = .ok sq ∧ sq.mustHead = (splitAnchor pat).1 ∧
       compilePattern sq = .ok insts ∧
       ∀ (cap : Nat) (src : Array Nat) (s : Nat), s ≤ src.size → src.size + pat.length + 3 ≤ cap →
         RunAgrees src (splitAnchor pat).2 s (vm src insts cap (vmFuel src insts) 0 s 1 #[]) := by
-  unfold inFragment at hfrag
+  unfold inFragment0 at hfrag
   cases ht : tokItems ((splitAnchor pat).2.length + 1) (splitAnchor pat).2 with
   | none => simp [ht] at hfrag
   | some v =>
@@ -279,7 +279,7 @@ theorem first_loop_gen (src : Array Nat) (p : List Nat) (anchor : Bool) (run : N
           simp [hlt, findLoop, hgt, pure, Except.pure]
 
 /-! ### `string.find` -/
-theorem find_frag_eq (pat subj : List Nat) (init : Int) (hfrag : inFragment pat = true)
+theorem find_frag_eq (pat subj : List Nat) (init : Int) (hfrag : inFragment0 pat = true)
     (hsz : subj.length + pat.length + 3 ≤ maxRecursionLevel) :
     modelFind pat subj init = specFind pat subj init := by
   unfold modelFind specFind Pm.strFind LuaPattern.strFind firstMatch
